@@ -13,6 +13,8 @@ open Neutrino.Disp
 #print axioms C12_score_moves
 #print axioms C12_hard_timeout_honoured
 #print axioms C12_connect_registers
+#print axioms C12_stale_wake_ignored
+#print axioms C12_progress_advances_generation
 open Neutrino.Wrk
 #print axioms C12_worker_source_facts
 #print axioms C12_worker_reports
